@@ -16,8 +16,9 @@ import (
 
 // Group is one scenario with every outcome the specification allows for it.
 type Group struct {
-	Scen    Scen
-	Text    string
+	Scen      Scen
+	Text      string
+	MayRefuse bool // the configuration may be refused at construction (left open by the specification)
 	Allowed map[string]Outcome // Outcome.Key -> outcome
 }
 
@@ -78,7 +79,7 @@ func Collect(run *vf.Run, fo FamilyOpts) (map[string]*Group, *vf.TLCResult, erro
 		mu.Lock()
 		g := groups[key]
 		if g == nil {
-			g = &Group{Scen: c.Scen, Text: text, Allowed: map[string]Outcome{}}
+			g = &Group{Scen: c.Scen, Text: text, Allowed: map[string]Outcome{}, MayRefuse: c.MayRefuse}
 			groups[key] = g
 		}
 		g.Allowed[c.Out.Key(ProjFor(&c.Scen, fo.Proj))] = c.Out
@@ -257,6 +258,9 @@ func classify(g *Group, obs *Observed, fo FamilyOpts) (string, string) {
 		return "panic", obs.Panic
 	}
 	if obs.CompileEr != "" {
+		if g.MayRefuse {
+			return "", ""
+		}
 		return "compile-error", obs.CompileEr
 	}
 	if fo.Check != nil {
